@@ -13,8 +13,8 @@ History = sequence of executions of one statement (rebuilt freshly each time)
 under a sequence of maps, on one engine whose compiled cache is cleared at the
 start of the history: all map sequences of length <= 2 over the 16 "quick"
 maps (quick) / all 64 functions {None,s1,s2} -> {None,s1,s2,absent} singly and
-paired (either order) with each of the 16, plus length 3 over the 10 maps with
-<= 1 key (thorough).  A second family interleaves two
+paired (either order) with each of the 10 maps with <= 1 key, all pairs of the
+16, plus length 3 over 6 maps (thorough).  A second family interleaves two
 different statements sharing the same Table objects.
 
 Oracle (the property, literally): the SQL handed to the cursor equals the SQL
@@ -59,7 +59,7 @@ META = dict(
     "contents and catalog of every attached schema)",
     design_ref="DESIGN.md §5 C16",
     level_text="13 statement / DDL shapes x 9 schema placements x every sequence of <=2 maps (16 maps quick; thorough: all 64 functions "
-    "singly and paired in either order with each of the 16, plus length 3 over the 10 maps with <= 1 key) share one compiled cache per history; each execution is compared with the reference "
+    "singly and paired in either order with each of the 10 maps with <= 1 key, all pairs of the 16, length 3 over 6 maps) share one compiled cache per history; each execution is compared with the reference "
     "construct whose tables carry the translated names, executed uncached on a twin database with three schemas. "
     "Exhaustive for the bound: a map frozen into the cache, a None-key slip or DDL ignoring the map within these shapes is found.",
     level_note="Trusted: the reference route (tables built with the translated schema, no map, no cache). Only SQLite executes; "
@@ -71,7 +71,7 @@ META = dict(
     assumptions=["single connection", "maps are fresh dict objects per execution", "SQLite 3.40"],
     bounds=dict(
         quick="13 shapes x 9 placements x all sequences of <=2 maps out of 16; 2-statement interleavings over 6 maps",
-        thorough="13 shapes x 9 placements x each of the 64 maps singly and paired (either order) with each of the 16; all sequences of 3 maps out of the 10 with <=1 key; interleavings over 16 maps",
+        thorough="13 shapes x 9 placements x each of the 64 maps singly and paired (either order) with each of the 10 maps with <=1 key; all pairs of the 16; all sequences of 3 maps out of 6; interleavings over 10 maps",
     ),
 )
 
@@ -250,12 +250,13 @@ def histories(tier):
         for m in allm:
             yield (m,)
         seen = set()
-        for a, b in itertools.chain(itertools.product(allm, q), itertools.product(q, allm)):
+        q10 = q[:10]
+        for a, b in itertools.chain(itertools.product(q, q), itertools.product(allm, q10), itertools.product(q10, allm)):
             k = (F.map_key(a), F.map_key(b))
             if k not in seen:
                 seen.add(k)
                 yield (a, b)
-        yield from itertools.product(q[:10], repeat=3)
+        yield from itertools.product(q[:6], repeat=3)
 
 
 def changes(m, schemas):
@@ -296,7 +297,7 @@ def run_shard(shard, tier, rec):
                     rec.violation(signature(kind, shape, sx, sy, maps, step), detail, dict(kind="single", shape=shape, sx=sx, sy=sy, maps=[list(map(list, m.items())) for m in maps[: step + 1]]), kind=(kind, shape))
         else:
             _, sx, sy = shard
-            ms = F.quick_maps()[:6] if tier == "quick" else F.quick_maps()
+            ms = F.quick_maps()[:6] if tier == "quick" else F.quick_maps()[:10]
             for s1, s2 in itertools.permutations(INTER_SHAPES, 2):
                 for m1, m2 in itertools.product(ms, repeat=2):
                     maps = (m1, m2, m2, m1)
